@@ -414,6 +414,10 @@ type uRun struct {
 	secrets []*USecret
 	held    []interface{}
 	sites   map[string]USite
+	// keyless: the documents built while it is set hold NO key material at the
+	// variants' positions (interleaved histories): the xDS forms name a file, the
+	// MOSN form has an empty private_key
+	keyless bool
 }
 
 // keyValue renders a secret in a form.
@@ -461,6 +465,13 @@ func (r *uRun) docs(vs []UVariant, tag string) (static, dynamic json.RawMessage,
 		k := uSpeller(v.Spell)
 		n := 0
 		doc := site.Build(k, func() interface{} {
+			if r.keyless {
+				n++
+				if v.Form == UFormMosn {
+					return ""
+				}
+				return uObj{k("filename"): fmt.Sprintf("/etc/c20x/certs/no-inline-key-%d.pem", n)}
+			}
 			s := NewUSecret(fmt.Sprintf("%s|%s|%s|%s#%d", tag, v.Site, v.Form, v.Spell, n))
 			n++
 			s.Site, s.Form, s.Cmp = v.Site, v.Form+"/"+v.Spell, site.Compared && v.Form != UFormFilename
@@ -555,6 +566,8 @@ func uIDs(m map[*USecret]string) []string {
 type UStats struct {
 	Sites    map[string]*USiteStat
 	Statuses map[string]int
+	// interleaved histories: keys set by an update after a dump that the restart dump holds
+	AfterDumpLive int
 }
 
 type USiteStat struct {
@@ -786,6 +799,9 @@ func RunUntypedCase(env UEnv, st *UStats, p *vreport.Part, c UCase) {
 func (u *UStats) UNotes(p *vreport.Part) {
 	p.Note("untyped_sites", u.Sites)
 	p.Note("endpoint_statuses", u.Statuses)
+	if u.AfterDumpLive > 0 {
+		p.Note("keys_set_by_an_update_after_a_dump_found_in_the_restart_dump", u.AfterDumpLive)
+	}
 	var vac []string
 	for k, s := range u.Sites {
 		if s.Compared && s.Live == 0 {
